@@ -65,7 +65,7 @@ func hasTransitionOps(evs []scripted.Event) (stage, transition bool) {
 
 // l2Cycles runs n real controller cycles and applies the C04 or C05 oracle.
 func l2Cycles(r *vk.Run, prop string) {
-	n := r.Pick(240, 12000)
+	n := r.Pick(240, 2400)
 	workers := 1 // one Manager per process: the scripted world and the protocol handler are process-global
 	var wg sync.WaitGroup
 	var mu sync.Mutex
@@ -221,7 +221,7 @@ func l2Cycles(r *vk.Run, prop string) {
 // l2Exec drives the real controller with endpoints of which exactly one
 // preserves executability (C18).
 func l2Exec(r *vk.Run) {
-	n := r.Pick(120, 6000)
+	n := r.Pick(120, 1500)
 	h, err := scripted.NewHarness(nil)
 	if err != nil {
 		r.Inconclusive("l2-harness-unavailable")
